@@ -120,7 +120,7 @@ asn1f_printable_value(asn1p_value_t *v) {
 			}
 			*ptr++ = '\'';
 			*ptr++ = (bits%8)?'B':'H';
-			*ptr++ = 'H';
+			*ptr++ = '\0';
 			assert(len == (size_t)(ptr - managedptr));
 			return managedptr;
 		}
